@@ -449,6 +449,7 @@ func preemptEngine(o *Opts) {
 	preemptInit()
 	rng := NewRng(o.Seed)
 	st := NewStats("preempt", o.Seed, "generated worlds: queue trees (2-9 queues, up to 3 levels, any mix of preemption policy default/fence/disabled, priority policy default/fence, offsets, guaranteed/max over sparse resource types, sibling names that are string prefixes of each other), 0-14 allocations over 1-4 nodes with priorities/flags (allowPreemptSelf, originator, required node, released, preempted) and one ask; half of the worlds are biased towards a starving ask queue next to over-guarantee siblings on nearly full nodes; stub predicate plugin with generated answers; required-node worlds; quota preemption histories (reconfigure / advance clock / add usage / trigger); non-trivial = at least one victim was preempted; distinct by hash of world + observations")
+	st.Samples = []any{}
 	var all PreemptCases
 	if o.Replay != "" {
 		readJSON(o.Replay, &all)
@@ -489,7 +490,7 @@ func preemptEngine(o *Opts) {
 			st.Count("queue.committed")
 			st.Count(fmt.Sprintf("queue.victims_%d", min(len(ob.Marked), 4)))
 		}
-		st.Case(t, c.nontrivial(), c)
+		st.Case(t, c.nontrivial(), map[string]any{"kind": "queue", "queues": len(c.Spec.Queues), "allocations": len(c.Spec.Allocs), "nodes": len(c.Spec.Nodes), "ask": c.Spec.Ask, "try": ob.Try, "marked": ob.Marked})
 	}
 	rTerms := []string{}
 	for i := range all.ReqNode {
@@ -504,7 +505,7 @@ func preemptEngine(o *Opts) {
 		if c.Obs != nil && c.Obs.Crash != "" {
 			st.Panics++
 		}
-		st.Case(t, c.Obs != nil && len(c.Obs.Marked) > 0, c)
+		st.Case(t, c.Obs != nil && len(c.Obs.Marked) > 0, map[string]any{"kind": "reqnode", "node": c.Node, "allocations": len(c.Spec.Allocs), "sorted": c.Obs.Sorted, "marked": c.Obs.Marked})
 	}
 	uTerms := []string{}
 	for i := range all.Quota {
@@ -530,7 +531,7 @@ func preemptEngine(o *Opts) {
 		if nt {
 			st.Count("quota.committed")
 		}
-		st.Case(t, nt, c)
+		st.Case(t, nt, map[string]any{"kind": "quota", "queues": len(c.Spec.Queues), "allocations": len(c.Spec.Allocs), "steps": len(c.Steps)})
 	}
 	base := filepath.Join(o.OutDir, fmt.Sprintf("cases_preempt_%d", o.Shard))
 	var b strings.Builder
